@@ -10,7 +10,7 @@
 (* must parse (Peg over the generated grammar + Actions) to exactly name(k):   *)
 (* that is Parse(Spell(k)) = k, hence distinct keys are never confused.        *)
 EXTENDS Actions, Json, TLC
-CONSTANTS MaxAtoms, Alphabet      \* "full" | "reduced"
+CONSTANTS MaxAtoms, Alphabet      \* "full" | "reduced" | "lengths" (one character repeated: every spelled length up to MaxAtoms)
 
 AtomsFull == { <<97>>, <<48>>, <<45>>, <<95>>, <<32>>, <<39>>, <<34>>, <<92>>, <<47>>, <<46>>, <<42>>, <<40>>, <<41>>, <<91>>, <<93>>,
                <<36>>, <<64>>, <<44>>, <<58>>, <<110>>, <<117>>, <<0>>, <<10>>, <<31>>, <<127>>, <<128>>, <<233>>, <<65533>>, <<65535>>, <<65536>>,
@@ -18,11 +18,11 @@ AtomsFull == { <<97>>, <<48>>, <<45>>, <<95>>, <<32>>, <<39>>, <<34>>, <<92>>, <
                \* other planes and odd code points: U+0100 U+0800 U+4E2D U+1F600 U+E000 U+2028 U+200B U+FEFF U+D7FF U+10FFFF
                <<256>>, <<2048>>, <<20013>>, <<128512>>, <<57344>>, <<8232>>, <<8203>>, <<65279>>, <<55295>>, <<1114111>> }
 AtomsReduced == { <<97>>, <<39>>, <<34>>, <<92>>, <<46>>, <<117>>, <<10>>, <<233>>, <<65536>>, <<92, 110>>, <<32>>, <<65533>> }
-Atoms == IF Alphabet = "full" THEN AtomsFull ELSE AtomsReduced
+Atoms == IF Alphabet = "full" THEN AtomsFull ELSE IF Alphabet = "lengths" THEN {<<97>>, <<233>>, <<39>>} ELSE AtomsReduced
 
 VARIABLES atoms
 Init == atoms = <<>>
-Next == Len(atoms) < MaxAtoms /\ \E a \in Atoms : atoms' = Append(atoms, a)
+Next == Len(atoms) < MaxAtoms /\ \E a \in Atoms : (Alphabet = "lengths" /\ atoms # <<>> => a = atoms[1]) /\ atoms' = Append(atoms, a)
 Spec == Init /\ [][Next]_atoms
 
 Key == Flat(atoms)
